@@ -148,23 +148,24 @@ CHECKS = {
 
 # later additions per check (rounds 4-5 of the seeded changes), appended to the technique text
 ADDENDA = {
-    "C01": "; a stage with the REAL split plugin in front of a real Batcher (every shape of the split field) recorded in the monitor's vocabulary; lines without a stream field (the pipeline's default stream) mixed with lines that carry one, the commit notification's stream compared with the line's",
+    "C01": "; a stage with the REAL split plugin in front of a real Batcher (every shape of the split field) recorded in the monitor's vocabulary; lines without a stream field (the pipeline's default stream) mixed with lines that carry one, the commit notification's stream compared with the line's; a delivery function that panics (child process); the back-off policy's own Stop exit (retry-budget scenarios)",
     "C02": "; the real file input as judge of its own commit notifications: FileInput.tla histories with several streams, killed and restarted while the saved per-stream offsets differ; truncation with unacknowledged lines in the file-input stage",
-    "C03": "; further families on the real input: rotation at the instant of a restart (scan vs watch), remove_after expiry, a compressed (.lz4) file killed after the first acknowledged lines, truncated while down, recycled inode, append storms, slow writers; graceful stop as an action of FileInput.tla (M_StopSaves, CleanStopSavesAll reported as drift); truncation noticed by the pass that read the old content (small pool); symbolic links with rotation behind the link (SymlinkFollow.tla)",
-    "C04": "; LockOrder.tla (stream.mu / blockedMu nesting, TLC deadlock check) bound by a blocked-streams flow on the real streamer (64 streams, each with a processor in blockGet); get/back cycles for every event size class on both pools; Pipeline.Stop bounded in every run (stop_never_returns)",
-    "C05": "; undecodable records also as oversize records cut off by max_event_size",
-    "C06": "; maintenance ticks between read rounds as a stuttering step (M_MaintenanceKeepsTail) with the real maintenanceJob; several files served by one worker (WorkerTails.tla); compressed (.lz4) files from every saved line-end offset, paths containing the letter w, a compressed file being written followed by another job; end to end through the real file plugin in a real pipeline; maintenance ticks in the middle of a pass (MaintainBusy, M_MaintenanceSkipsBusyJob); a compressed job's second life after maintenance re-opened it",
-    "C08": "; BatcherProto numbers the uses of batch objects (HandOverOnce; M_HeartbeatOneSection, M_StopLeavesPartial as mechanisms with rejected mutants); an Add queued on the real batcher mutex behind the heartbeat while the open batch has expired; Stop trials with slow sends judged for per-adder commit order and commit-after-send-return; a lonely event behind a batch sealed by size with a 1.5 s flush time-out judged on the median wait over 41 runs",
-    "C09": "; scripted send failures cycle through error values (plain, context deadline, cancelled, unexpected EOF); GiveUpHandover.tla (a given-up batch object refilled while the dead queue is slow) bound by a follow-batch family on the real elasticsearch plugin",
-    "C10": "; in-process Kafka broker (real Start/Stop/Commit, broker-side OffsetCommit judged by KafkaMon), records tracked from the hand-out (Fetched), epoch rewinds, back-pressure, split records; a commit for something that is not a record is a violation record; Shutdown.tla (the input makes its position durable before the output abandons what is in flight) bound by stopping a whole real pipeline (kafka plugin, in-process broker) with sends in flight",
-    "C11": "; the compressed size / Content-Length of a gzip request is a case dimension (gzone), real gzip requests with a Content-Length replayed at compression ratios 50..900; the pipeline's max_event_size as a case dimension (every case with a limit below, equal to and above its longest line)",
-    "C15": "; plugin instances started from ONE shared config object on different templates (JoinInstances.tla)",
+    "C03": "; further families on the real input: rotation at the instant of a restart (scan vs watch), remove_after expiry, a compressed (.lz4) file killed after the first acknowledged lines, truncated while down, recycled inode, append storms, slow writers; graceful stop as an action of FileInput.tla (M_StopSaves, CleanStopSavesAll reported as drift); truncation noticed by the pass that read the old content (small pool); symbolic links with rotation behind the link (SymlinkFollow.tla); D3's attribution refined (a lost line that was read again after the restart is not D3's); default stream saved ahead of a stream without an offset; a line of exactly max_event_size",
+    "C04": "; LockOrder.tla (stream.mu / blockedMu nesting, TLC deadlock check) bound by a blocked-streams flow on the real streamer (64 streams, each with a processor in blockGet); get/back cycles for every event size class on both pools; Pipeline.Stop bounded in every run (stop_never_returns); chunk runs (class U: collapsed, nothing held) ended by the stream's time-out (M_DiscardResetsBusy, TimeoutEndsTheWait)",
+    "C05": "; undecodable records also as oversize records cut off by max_event_size; every refusing exit of Pipeline.In returns its pool event (7 refusals against capacity 2, both pools)",
+    "C06": "; maintenance ticks between read rounds as a stuttering step (M_MaintenanceKeepsTail) with the real maintenanceJob; several files served by one worker (WorkerTails.tla); compressed (.lz4) files from every saved line-end offset, paths containing the letter w, a compressed file being written followed by another job; end to end through the real file plugin in a real pipeline; maintenance ticks in the middle of a pass (MaintainBusy, M_MaintenanceSkipsBusyJob); a compressed job's second life after maintenance re-opened it; truncation noticed by the pass that read the data (harness-level declarative oracle)",
+    "C08": "; BatcherProto numbers the uses of batch objects (HandOverOnce; M_HeartbeatOneSection, M_StopLeavesPartial as mechanisms with rejected mutants); an Add queued on the real batcher mutex behind the heartbeat while the open batch has expired; Stop trials with slow sends judged for per-adder commit order and commit-after-send-return; a lonely event behind a batch sealed by size with a 1.5 s flush time-out judged on the median wait over 41 runs; flush time-out 0",
+    "C09": "; scripted send failures cycle through error values (plain, context deadline, cancelled, unexpected EOF); GiveUpHandover.tla (a given-up batch object refilled while the dead queue is slow) bound by a follow-batch family on the real elasticsearch plugin; the back-off policy's Stop exit; the dead queue is fed only on give-up (M_DeadQueueOnlyOnGiveUp)",
+    "C10": "; in-process Kafka broker (real Start/Stop/Commit, broker-side OffsetCommit judged by KafkaMon), records tracked from the hand-out (Fetched), epoch rewinds, back-pressure, split records; a commit for something that is not a record is a violation record; Shutdown.tla (the input makes its position durable before the output abandons what is in flight) bound by stopping a whole real pipeline (kafka plugin, in-process broker) with sends in flight; a rebalance revokes the partitions (real Lost callback) with records in flight; a dead queue behind a failing backend",
+    "C11": "; the compressed size / Content-Length of a gzip request is a case dimension (gzone), real gzip requests with a Content-Length replayed at compression ratios 50..900; the pipeline's max_event_size as a case dimension (every case with a limit below, equal to and above its longest line); Content-Type, URL query and the plugin's meta option as case dimensions, a sample replayed over a real net/http server",
+    "C15": "; plugin instances started from ONE shared config object on different templates (JoinInstances.tla); the text of a flushed event is fixed at the flush (outputs re-read at the end of the case, a holding output in the timed runs); indented start lines per template",
     "C16": "; key length as a dimension (SpecKey: keys that differ only beyond byte 62)",
-    "C17": "; number and index of masks (MaskSet.tla, up to 70 masks); do_if decided on the event as it arrived (MaskDoIf.tla); match rules stateless across instances (MaskRules.tla); anchored expressions and top-level alternations (every engine match is replaced: M_AllMatches); all-digit path elements over objects and arrays (MaskPath.tla)",
-    "C18": "; depth buffers per plugin instance: two-instance TLC model over all interleavings of buffer operations (M_BuffersPerInstance) and N>=4 real instances from one shared Config run concurrently on distinct documents; names matter only through equality (RenameInvariant lemma, M_NamesComparedWhole): every case re-run under injective name tables of 1..1000 bytes",
-    "C19": "; OutputFileSink.tla (workers write whole batches under one lock, seal-up) and OutputStreamSink.tla (a connection is a byte stream cut at delimiters: FramesAreEvents) bound to the real file and gelf plugins (2 workers behind a barrier; a receiver that stalls mid-frame); pipeline-side stage (recycled event objects, split); OutputTransport.tla (endpoint lists with dead endpoints x gzip: the body that reaches a sink is the payload once) and GelfFieldName.tla (field names over ASCII and non-ASCII alphabets) on the real plugins",
-    "C20": "; rule lists as sequences (M_FirstRuleWins) and the source selection of Pipeline.In (M_SourceFallsBackToInputId) through IsSpam and Pipeline.In; the Offsets argument of In (per-stream saved offsets x decoder x antispam: refused only for stated reasons)",
-    "C14": "; escaped string values decoded from JSON text per evaluation, length and field leaves on one field in both operand orders",
+    "C17": "; number and index of masks (MaskSet.tla, up to 70 masks); do_if decided on the event as it arrived (MaskDoIf.tla); match rules stateless across instances (MaskRules.tla); anchored expressions and top-level alternations (every engine match is replaced: M_AllMatches); all-digit path elements over objects and arrays (MaskPath.tla); event sequences through one instance (MaskSeq.tla); match-rule value lists of different lengths (MaskRuleMatch.tla)",
+    "C18": "; depth buffers per plugin instance: two-instance TLC model over all interleavings of buffer operations (M_BuffersPerInstance) and N>=4 real instances from one shared Config run concurrently on distinct documents; names matter only through equality (RenameInvariant lemma, M_NamesComparedWhole): every case re-run under injective name tables of 1..1000 bytes; selector lists padded to 9..40 entries (PadIrrelevant lemma, M_RemovePerSelector)",
+    "C19": "; OutputFileSink.tla (workers write whole batches under one lock, seal-up) and OutputStreamSink.tla (a connection is a byte stream cut at delimiters: FramesAreEvents) bound to the real file and gelf plugins (2 workers behind a barrier; a receiver that stalls mid-frame); pipeline-side stage (recycled event objects, split); OutputTransport.tla (endpoint lists with dead endpoints x gzip: the body that reaches a sink is the payload once) and GelfFieldName.tla (field names over ASCII and non-ASCII alphabets) on the real plugins; EsActionLine.tla: the action line of every document is built from its own event's values of all index_values fields",
+    "C20": "; rule lists as sequences (M_FirstRuleWins) and the source selection of Pipeline.In (M_SourceFallsBackToInputId) through IsSpam and Pipeline.In; the Offsets argument of In (per-stream saved offsets x decoder x antispam: refused only for stated reasons); two records through one pooled event per decoder class (M_RootResetPerRecord); exceptions x global thresholds x rules (M_ExceptionsFirst)",
+    "C14": "; escaped string values decoded from JSON text per evaluation, length and field leaves on one field in both operand orders; match_mode x match_invert on every do_if rule (do_if decides alone)",
+    "C07": "; one writer per offsets file as a mechanism (OffsetsOwner.tla, paths compared after normalisation); order of the save steps (M_SyncBeforeRename)",
 }
 
 NOT_APPLICABLE = {
